@@ -13,6 +13,23 @@ func c03OneLine(m *d2ast.Map) bool {
 	return len(m.Nodes) >= 2 && m.Range.Start.Line == m.Range.End.Line
 }
 
+// c03ArrayClosedAfterSeparator: some array of the file is written on one line
+// in the source (so it is printed on one line) and ends in a plain scalar.
+func c03ArrayClosedAfterSeparator(n d2ast.Node) bool {
+	if a, ok := n.(*d2ast.Array); ok && a.Range.OneLine() && len(a.Nodes) > 0 {
+		last := a.Nodes[len(a.Nodes)-1]
+		if last.UnquotedString != nil || last.Number != nil || last.Boolean != nil || last.Null != nil {
+			return true
+		}
+	}
+	for _, ch := range n.Children() {
+		if c03ArrayClosedAfterSeparator(ch) {
+			return true
+		}
+	}
+	return false
+}
+
 func c03Check(s string) {
 	m, err := d2parser.Parse("f.d2", strings.NewReader(s), nil)
 	if err != nil {
@@ -22,6 +39,12 @@ func c03Check(s string) {
 	if nd.Known("C03-one-line-file") && c03OneLine(m) {
 		// recorded finding: `a;a` is printed as `a; a` followed by a newline, which makes
 		// the file map span two lines, so the second pass prints one statement per line
+		return
+	}
+	if nd.Known("C03-array-closed-after-separator") && c03ArrayClosedAfterSeparator(m) {
+		// recorded finding: `a: [x; ]` is printed on one line as `a: [x]`, but the parser
+		// gives an array whose last element touches the closing bracket a range that
+		// runs into the next line, so the second pass prints it over several lines
 		return
 	}
 	t1 := Format(m)
@@ -36,4 +59,57 @@ func c03Check(s string) {
 func VerifC03Short() {
 	n := nd.Choose("len", 0, nd.Param("N", 3))
 	c03Check(nd.From("s", n, "aA.-><:;{}'*\n &_"))
+}
+
+// VerifC03Templates: constructs longer than the byte-level bound, with
+// symbolic holes: board keywords with and without a value placed before and
+// after other statements, double-quoted strings with substitutions and escapes
+// around them, arrays, block strings, line and block comments next to keys,
+// indexed connection fields, imports, a primary value next to a map.
+func VerifC03Templates() {
+	h := nd.From("h", nd.Choose("hl", 1, nd.Param("H", 2)), "aA\"\\n$ ;#|'")
+	g := nd.From("g", nd.Choose("gl", 0, 1), "a\"\\ ")
+	kw := []string{"layers", "scenarios", "steps"}[nd.Choose("kw", 0, 2)]
+	var s string
+	switch nd.Choose("tpl", 0, nd.Param("TPLS", 18)-1) {
+	case 0:
+		s = kw + "\n"
+	case 1:
+		s = kw + "\n" + h + "\n"
+	case 2:
+		s = kw + ": {l: {b}}\n" + h + "\n"
+	case 3:
+		s = h + "\n" + kw + ": {l: {b}}\nc\n"
+	case 4:
+		s = "vars: {v: 1}\na: \"" + g + "${v}" + h + "\"\n"
+	case 5:
+		s = "vars: {v: 1; w: 2}\na: \"${v}" + h + "${w}" + g + "\"\n"
+	case 6:
+		s = "a: [" + h + "; " + g + "]\n"
+	case 7:
+		s = "a: |md " + h + " |\nb: |`md " + g + "|`\n"
+	case 8:
+		s = "# " + h + "\na\n\"\"\" " + g + " \"\"\"\nb\n"
+	case 9:
+		s = "a; \"\"\" " + g + " \"\"\"\n"
+	case 10:
+		s = "a -> b\n(a -> b)[0].label: " + h + "\n"
+	case 11:
+		s = "x: @" + h + "\n...@" + g + "\n"
+	case 12:
+		s = "a: " + h + " {b}\n"
+	case 13:
+		s = "vars: {v: 1}\na: ${v}" + h + "\n"
+	case 14: // quoted import paths, as a value and as a spread
+		q := nd.From("q", nd.Choose("ql", 1, nd.Param("H", 2)+1), "a.:-/d2&")
+		s = "x: @\"" + q + "\"\n...@\"" + q + "\"\n"
+	case 15: // connection fields with and without index, with a key prefix
+		s = "a -> b\nx: {c -> d}\n(a -> b)." + []string{"label", "style.opacity", "source-arrowhead.shape"}[nd.Choose("f", 0, 2)] + ": " + h + "\nx.(c -> d)[0].label: " + g + "\n"
+	case 16: // block strings with blank and white-space-only lines
+		ws := []string{"", " ", "  ", "    ", "\t"}[nd.Choose("ws", 0, 4)]
+		s = "x: |md\n  a\n  " + ws + "\n  " + h + "\n|\n"
+	case 17: // connection chains and reversed arrows with labels
+		s = "a -> b <- c -- d: " + h + "\nb <-> a: " + g + "\n"
+	}
+	c03Check(s)
 }
